@@ -158,7 +158,7 @@ theorem hierarchy_WF_aux (rules : List HRule) (mode : HMode) (imode : HInput) (a
     (w : x.WF) (h : hierarchy rules mode imode all rc x = .ok res) : res.WF := by
   obtain ⟨m, per, _, hrc, hnd, hper, rfl⟩ := hierarchy_ok h
   have hc : (per.flatten.map (·.key x.ids)).Nodup :=
-    hier_computed_nodup x rc m mode imode _ _ hrc hnd _ per (dedup_nodup _) (fun g hg => hg) hper
+    hier_computed_nodup x rc m mode imode _ _ hrc hnd _ per (hdedup_nodup _) (fun g hg => hg) hper
   cases all with
   | false => exact hc
   | true =>
